@@ -410,6 +410,40 @@ def lock_lines(ind, name, cex):
     return [ind + "unfold %s" % name,
             ind + "repeat' (refine %s ?_ (fun _ _ => ?_) (fun _ _ => ?_))" % ite,
             ind + "all_goals first | (refine %s (fun res res' h h' => ?_); %s%s) | %s" % (oe, CLOSE, GR, GR)]
+ANALYZE = """/-- the four optional word pairs at the end of ANALYZE TABLE -/
+def analyzeTail (r2 : List Tok) : Bool × Bool × Bool × List Tok :=
+  let a := moveTwoUp r2 "COMPUTE" "STATISTICS"
+  let b := moveTwoUp a.2 "FOR" "COLUMNS"
+  let c := moveTwoUp b.2 "CACHE" "METADATA"
+  let n := moveStrUp c.2 "NOSCAN"
+  (b.1, c.1, n.1, n.2)
+omit S in
+theorem pAnalyze_eq (d : Gen.D) (f : Nat) (ts : List Tok) : pAnalyze d f ts =
+    match matchSeq ts ["ANALYZE", "TABLE"] with
+    | .error e => .error e
+    | .ok (_, r) => match pTblName r with
+      | .error e => .error e
+      | .ok (t, r1) =>
+        match pOptPartition d f r1 with
+        | .error e => .error e
+        | .ok (part, r2) => .ok (.analyze t part (analyzeTail r2).1 (analyzeTail r2).2.1 (analyzeTail r2).2.2.1, (analyzeTail r2).2.2.2) := rfl
+theorem analyzeTail_qe {r r' : List Tok} (h : QEL r r') :
+    (analyzeTail r).1 = (analyzeTail r').1 ∧ (analyzeTail r).2.1 = (analyzeTail r').2.1 ∧ (analyzeTail r).2.2.1 = (analyzeTail r').2.2.1 ∧
+    QEL (analyzeTail r).2.2.2 (analyzeTail r').2.2.2 := by
+  have a := qel_moveTwoUp h "COMPUTE" "STATISTICS" (by decide) (by decide)
+  have b := qel_moveTwoUp a.2 "FOR" "COLUMNS" (by decide) (by decide)
+  have c := qel_moveTwoUp b.2 "CACHE" "METADATA" (by decide) (by decide)
+  have n := qel_moveStrUp c.2 "NOSCAN" (by decide)
+  exact ⟨b.1, c.1, n.1, n.2⟩
+grind_pattern analyzeTail_qe => QEL r r', analyzeTail r
+theorem pAnalyze_qe (d : Gen.D) (f : Nat) : ∀ x0 y0, QEL x0 y0 → QER (qeq erSt0) (pAnalyze d f x0) (pAnalyze d f y0) := by
+  intro x0 y0 hr0
+  generalize h : pAnalyze d f x0 = res
+  generalize h' : pAnalyze d f y0 = res'
+  rw [pAnalyze_eq] at h h'
+  %s
+grind_pattern pAnalyze_qe => pAnalyze d f x0, pAnalyze d f y0
+""" % (CLOSE + GR)
 ec_done = set()
 STMT_HEAD = list(out)
 for d in stmt_all + entry_defs:
@@ -428,6 +462,8 @@ for d in stmt_all + entry_defs:
                     "  intro x0 y0 hr0", "  unfold %s" % d.name, "  exact %s_qe _ _ x0 _ _ y0 rfl rfl (by decide) hr0" % tgt]
         out += ["grind_pattern %s_qe => %s x0, %s y0" % (d.name, d.name, d.name), ""]
         continue
+    if d.name == "pAnalyze":      # four chained `search_and_move`s: the generated proof does not terminate (E-matching along the chain); the chain is named and related by hand
+        out += ANALYZE.split("\n"); continue
     f = stmt_fn(d)
     xs_, ys_, hyps, a1, a2 = quant(f)
     hs = ["hr%d" % i for i in range(len(hyps))]
